@@ -6,6 +6,7 @@ from ..common import Failure
 from ..vloop import run_virtual
 
 S = 1_000_000
+DAY = 86400 * S
 
 
 def gen_hist(rng, n_ops: int, focus: str = "any") -> dict:
@@ -32,14 +33,21 @@ def gen_hist(rng, n_ops: int, focus: str = "any") -> dict:
     def spec_put():
         sp: dict = {}
         r = rng.random()
+        if focus == "fifo":
+            if r < 0.25:
+                sp["next"] = rng.choice([-S, 0, -1])          # its time has come already: immediately deliverable
+            elif r < 0.32:
+                sp["next"] = 6 * 3600 * S                      # parked for hours in the delayed queue
+            return sp
         if focus in ("delay", "any") and r < (0.6 if focus == "delay" else 0.3):
-            sp["next"] = rng.choice([-S, 0, 1, 999, 1000, 1001, 1500, 2500, 30_000, 250_000, 1_300_000, 5 * S + 7])
+            sp["next"] = rng.choice([-S, 0, 1, 999, 1000, 1001, 1500, 2500, 30_000, 250_000, 1_300_000, 5 * S + 7,
+                                     DAY + 400_000, 2 * DAY + 600_000, 7 * DAY])
         elif focus in ("delay", "any") and r < 0.4:
             sp["by"] = rng.choice([1 * S, 10 * S])
             sp["until"] = rng.choice([None, 2000, -5])
             sp["ts"] = rng.choice([0, -1500])
         if focus in ("ttl", "any") and rng.random() < (0.6 if focus == "ttl" else 0.3):
-            sp["ttl"] = rng.choice([2000, 200_000, 10 * S])
+            sp["ttl"] = rng.choice([2000, 200_000, 10 * S, DAY + S, 7 * DAY + S])
             sp["ts"] = rng.choice([0, -1000, -150_000, -S])
         return sp
 
@@ -154,7 +162,11 @@ def oracle(hist: dict, r: dict, which: set) -> list:
                 if "C01" in which and zones(places.get(i, [])) != ["dead"]:
                     bad.append(("rabbit_nack_from_delayed_queue_promotes", f"message {i}, taken through the DELAYED category and nacked, is in "
                                 f"{places.get(i)}: the dead-letter target of <q>:delayed is <q> itself", where))
-                origin[i] = "delayed"        # wherever it went from there, it did not get there as a normal message
+                if "C05" in which and due.get(i) is not None and t < due[i] and zones(places.get(i, [])) == ["normal"]:
+                    bad.append(("rabbit_nack_from_delayed_queue_promotes", f"message {i}, due at {due[i]}, taken through the DELAYED category "
+                                f"and nacked at {t}, is now in the normal queue before its time", where))
+                due[i] = None                # from here on it is an ordinary waiting message (that is the finding)
+                origin[i] = "delayed"
             elif "C01" in which and zones(places.get(i, [])) != ["dead"]:
                 bad.append(("rabbit_nack_not_dead_lettered", f"after nack message {i} is in {places.get(i)}", where))
         elif op == "reject":
@@ -208,28 +220,43 @@ def oracle(hist: dict, r: dict, which: set) -> list:
 
 
 def fifo_oracle(hist: dict, r: dict) -> list:
-    """C15 for histories of the `fifo` focus (one priority): a consumer's takes, restricted to messages that were never
-    returned, follow the order of their (immediate) enqueues."""
+    """C15 for histories of the `fifo` focus (one consumer, one priority): among the messages that are immediately deliverable
+    when enqueued, of a topic the consumer serves, and that were never returned, the consumer's takes follow the order of
+    enqueue - a later one is never handed out while an earlier one is still waiting."""
+    from . import _mem
     bad = []
+    cons = hist["consumers"]
     order: dict = {}
-    returned: set = set()
+    topic: dict = {}
+    excluded: set = set()
+    delivered: set = set()
     n_put = 0
-    last: dict = {}
     for n, e in enumerate(r["trace"]):
         if e["op"] == "put":
-            order[e["id"]] = n_put
+            d = _mem.due_of(e["params"], e["t"])
+            if d is None or d <= e["t"]:
+                order[e["id"]] = n_put
+                topic[e["id"]] = (e["topic"], e["q"])
+                if _mem.expiry_of(e["params"]) is not None:
+                    excluded.add(e["id"])
             n_put += 1
-        elif e["op"] in ("reject", "requeue", "finish", "pause"):
-            # rejects, and everything a finish or a paused consumer sends back, lose their place legitimately
-            returned |= {e["id"]} if "id" in e else set(order)
+        elif e["op"] in ("reject", "requeue", "nack", "ack"):
+            excluded.add(e["id"])
+        elif e["op"] == "finish":
+            excluded |= set(order)            # everything buffered goes back: places are lost legitimately
         elif e["op"] == "take" and e["delivered"]:
-            i, c = e["delivered"], e["c"]
-            if i in returned or i not in order:
+            j, c = e["delivered"], e["c"]
+            delivered.add(j)
+            if j in excluded or j not in order:
                 continue
-            if c in last and order[i] < last[c]:
-                bad.append(("rabbit_overtaken", f"consumer {c} received message {i} (enqueue #{order[i]}) after a message enqueued later (#{last[c]})",
-                            {"step": n}))
-            last[c] = max(last.get(c, -1), order[i])
+            topics = cons[c][2]
+            for i, oi in order.items():
+                if oi < order[j] and i not in delivered and i not in excluded and topic[i][1] == cons[c][0] and \
+                        (topics is None or topic[i][0] in topics):
+                    bad.append(("rabbit_overtaken", f"consumer {c} received message {j} (enqueue #{order[j]}) while message {i} "
+                                f"(enqueue #{oi}, deliverable at once, never returned) is still waiting: {e['state']['places'].get(i)}",
+                                {"step": n}))
+                    break
     return bad
 
 
@@ -285,6 +312,9 @@ def check_findings(res, which_props: set) -> None:
             if not tr[-1]["state"]["places"].get(1):
                 res.failures.append(Failure(kind, "message 1, dead-lettered, taken through the DEAD category and nacked again, is in no place: "
                                             "<q>:dead has no dead-letter target, basic.nack(requeue=False) discards it", {"rabbit_scenario": kind}, None))
+    if "C11" in which_props:
+        for what in same_id_runs()[:1]:
+            res.failures.append(Failure("rabbit_same_id_foreign_and_own", what, {"rabbit_scenario": "same_id_runs"}, None))
     if "C01" in which_props:
         gap = requeue_cut()
         if gap is not None:
@@ -292,6 +322,54 @@ def check_findings(res, which_props: set) -> None:
                                         "basic.publish has not - the message is in no queue and unacknowledged by nobody (requeue = ack, then enqueue)",
                                         {"rabbit_scenario": "requeue_cut", "cut_after_iterations": gap}, None))
     return outs
+
+
+def same_id_runs() -> list:
+    """A foreign and an own message that carry the SAME message id (RabbitMQ does not make ids unique; `Job(id_=...)` lets
+    the caller choose) overlap on one consumer, in both orders: the own one is taken and acked - afterwards it must be
+    gone and the foreign one must still be there (ready or on its reject cycle), whichever came first."""
+    import asyncio
+    import json
+    from ..fakeamqp import ISSUER
+    from ..world import key
+    problems = []
+
+    async def main(loop):
+        for order in ("foreign_first", "own_first"):
+            w = rabbitrun.RabbitWorld()
+            tok = ISSUER.set(("api",))
+            try:
+                await w.mb.queue_declare("q1")
+                cons = w.mb.get_consumer("q1", ["t1"], None)
+                await cons.start()
+                p = memrun.build_params({}, rabbitrun.CLOCK.now_us())
+                msgs = [("t2", "foreign"), ("t1", "own")]
+                if order == "own_first":
+                    msgs.reverse()
+                for topic, payload in msgs:
+                    await w.mb.enqueue(key("m1", topic, "q1", 5), payload, p)
+                await w.settle()
+                got = await asyncio.wait_for(cons.consume(), 1.0)
+                if got[1] != "own":
+                    problems.append(f"{order}: consume() returned payload {got[1]!r}")
+                await w.mb.ack(got[0])
+                await w.settle()
+                await asyncio.sleep(0.25)
+                await w.settle()
+            finally:
+                ISSUER.reset(tok)
+            there = [json.loads(m["body"])["payload"] for l in w.srv.queues.values() for m in l] + \
+                    [json.loads(u["msg"]["body"])["payload"] for u in w.srv.unacked]
+            if "own" in there:
+                problems.append(f"{order}: the own message was acked by its holder and is still on the server ({there})")
+            if "foreign" not in there:
+                problems.append(f"{order}: the foreign message is gone from the server (acknowledged or dropped by a consumer that has no actor for it)")
+            n_rej = sum(1 for x in w.srv.log if x[0] == "method" and x[3] == "reject")
+            if n_rej < 2:
+                problems.append(f"{order}: the foreign message is not being given back ({n_rej} rejects in 0.25 s): it stays unacknowledged on this consumer")
+            cons_task = None
+    run_virtual(main)
+    return problems
 
 
 def requeue_cut():
